@@ -72,7 +72,7 @@ def run_tlc(
         cfg = SPEC / "cfg" / cfg
     meta = scratch("tlcmeta-")
     w = workers or NCPU
-    java = ["java", "-XX:+UseParallelGC", f"-Xmx{heap}"]
+    java = ["java", "-XX:+UseParallelGC", f"-Xmx{heap}", f"-Djava.io.tmpdir={meta}"]        # TLC's own temporary directories go with the scratch directory
     if dfs_queue:
         java.append("-Dtlc2.tool.queue.IStateQueue=StateDeque")
     cmd = java + ["-cp", JAR, "tlc2.TLC", "-workers", str(w), "-metadir", str(meta), "-noGenerateSpecTE",
